@@ -150,6 +150,8 @@ def _submit(ctx, th, spec):
         args = (tasks.big, tok, spec["n"])
     elif kind == "bigarg":
         args = (tasks.echo, tok, b"y" * spec["n"])
+    elif kind == "hugearg":
+        args = (tasks.echo, tok, b"z" * 1100000)       # larger than the simulated send_bytes limit
     elif kind == "unp_arg":
         args = (tasks.echo, tok, tasks.UnpicklableArg())
     elif kind == "struct_arg":
@@ -457,6 +459,7 @@ def _history(w, ctx, verdict, wlist):
     H.verdict = verdict
     H.verdict_detail = w.verdict_detail
     H.steps = w.steps
+    H.decisions = w.decision_no
     H.now = w.now
     H.case = ctx.case
     H.futures = {}
